@@ -423,4 +423,47 @@ theorem sortBy_sorted {α : Type} (lt : α → α → Bool)
     exact insertBy_sorted lt asymm trans x _ (sortBy_sorted lt asymm trans xs)
 
 
+/-! ### the parameter-kind word, bit by bit -/
+
+theorem one_shl_testBit (k i : Nat) (hk : k < 64) :
+    ((1 : UInt64) <<< (UInt64.ofNat k)).toNat.testBit i = decide (i = k) := by
+  have h1 : (UInt64.ofNat k).toNat = k := by simp [UInt64.toNat_ofNat']; omega
+  simp only [UInt64.toNat_shiftLeft, h1, UInt64.toNat_one, Nat.mod_eq_of_lt hk]
+  rw [Nat.testBit_mod_two_pow, Nat.one_shiftLeft, Nat.testBit_two_pow]
+  by_cases e : i = k
+  · subst e; simp [hk]
+  · have : ¬ k = i := fun h => e h.symm
+    simp [e, this]
+
+theorem head_bit (b : Bool) (k i : Nat) :
+    (if (b && decide (k < 64)) = true then (1 : UInt64) <<< UInt64.ofNat k else 0).toNat.testBit i =
+      (b && decide (k < 64) && decide (i = k)) := by
+  split
+  · rename_i hc
+    simp only [Bool.and_eq_true, decide_eq_true_eq] at hc
+    rw [one_shl_testBit k i hc.2]; simp [hc.1, hc.2]
+  · rename_i hc
+    have : (b && decide (k < 64)) = false := by simpa using hc
+    simp [this]
+
+/-- parameter kinds: bit `i` of the word is set iff the template argument at position `i - k` exists and is `#` -/
+theorem paramsTypeOf_testBit : ∀ (targs : List TemplateArg) (k i : Nat), i < 64 →
+    (paramsTypeOf targs k).toNat.testBit i =
+      (decide (k ≤ i) && ((targs[i - k]?).map (·.isNat)).getD false)
+  | [], k, i, _ => by simp [paramsTypeOf]
+  | a :: as, k, i, hi => by
+    simp only [paramsTypeOf, UInt64.toNat_or, Nat.testBit_or]
+    rw [paramsTypeOf_testBit as (k + 1) i hi, head_bit]
+    by_cases hk : k ≤ i
+    · by_cases e : i = k
+      · subst e
+        have : ¬ (i + 1 ≤ i) := by omega
+        simp [hi, this]
+      · have h2 : k + 1 ≤ i := by omega
+        have h3 : i - k = (i - (k + 1)) + 1 := by omega
+        simp [hk, h2, h3, e]
+    · have h2 : ¬ (k + 1 ≤ i) := by omega
+      have e : ¬ i = k := by omega
+      simp [hk, h2, e]
+
 end TLVerif.Tlomig
